@@ -19,7 +19,8 @@ def cases(tier, seed, shard, nshards, rng):
         kind = ["tee", "lru", "cached_property", "exitstack", "scoped", "groupby"][i % 6]
         if kind == "tee":
             yield {"kind": "tee", "len": rng.randint(0, 4), "n": rng.choice([2, 3]), "susp": rng.choice([1, 2]),
-                   "flav": rng.choice(["async_class", "async_gen"]), "order": [rng.randrange(3) for _ in range(rng.randint(1, 8))]}
+                   "flav": rng.choice(["async_class", "async_gen", "async_class_bare", "async_class_proxy", "async_class_future"]),
+                   "order": [rng.randrange(3) for _ in range(rng.randint(1, 8))]}
         elif kind == "groupby":
             yield {"kind": "groupby", "keys": [rng.randrange(3) for _ in range(rng.randint(0, 6))],
                    "ops": [rng.choice(["adv", "adv", "grp"]) for _ in range(rng.randint(1, 7))],
@@ -94,7 +95,7 @@ def run_tee(case, stats):
             viols.append({"key": "tee/cancel-not-propagated", "msg": f"{head}: ended {out.get('end')}"})
         if lock.owner is not None:
             viols.append({"key": "tee/lock-held-after-cancel", "msg": f"{head}: lock owned by {lock.owner}"})
-        if not st.released():
+        if case["flav"] != "async_class_bare" and not st.released():
             key = "tee/unstarted-child-never-deregisters" if len(advanced) < case["n"] else "tee/leak-after-cancel"
             viols.append({"key": key, "msg": f"{head}: source still open after cancellation and handle.aclose() "
                                              f"(children advanced: {sorted(advanced)})"})
